@@ -230,28 +230,33 @@ Fixpoint rpc_spec_rows (strict : bool) (memo : list (N * N)) (steps : list rstep
 Definition rpc_spec_ok (c : rpc_case) : bool := rpc_spec_rows (rc_strict c) [] (rc_steps c).
 
 (* ------------------------------------------------------------------ route groups on one engine *)
-Record grp_case := mkgc {
-  gc_groups : list group;                          (* in registration order *)
-  gc_target : nat;                                 (* the group whose route the request is sent to *)
-  gc_rsa : list ((N * bytes) * option bytes);      (* (private key id, secret text) |-> DecryptBase64 *)
-  gc_fp : bytes; gc_enckey : N;                    (* what the client did: announced fingerprint, public key used *)
-  gc_sig : sig_case                                (* request, remaining tables, description, observation *)
+Record grp_req := mkgr {
+  gr_target : nat;                                 (* the group whose route the request is sent to *)
+  gr_rsa : list ((N * bytes) * option bytes);      (* (private key id, secret text) |-> DecryptBase64 *)
+  gr_fp : bytes; gr_enckey : N;                    (* what the client did: announced fingerprint, public key used *)
+  gr_sig : sig_case                                (* request, remaining tables, description, observation *)
 }.
 
-Definition grp_rsa (c : grp_case) (k : N) (s : bytes) : option bytes :=
-  match alookup (pair_eqb N.eqb bytes_eqb) (k, s) (gc_rsa c) with Some v => v | None => None end.
+Record grp_case := mkgc {
+  gc_groups : list group;                          (* in registration order *)
+  gc_reqs : list grp_req
+}.
 
-Definition grp_gate (c : grp_case) (now : Z) : option sout :=
-  let s := gc_sig c in
+Definition grp_rsa (c : grp_req) (k : N) (s : bytes) : option bytes :=
+  match alookup (pair_eqb N.eqb bytes_eqb) (k, s) (gr_rsa c) with Some v => v | None => None end.
+
+Definition grp_gate (groups : list group) (c : grp_req) (now : Z) : option sout :=
+  let s := gr_sig c in
   engine_gate (grp_rsa c) (opt_bytes_tab (sc_b64 s)) (mac_of s) (sha_of s) (fun _ => sc_url s) (fun _ _ => sc_decbody s)
-    (gc_groups c) (gc_target c) now (sc_req s).
+    groups (gr_target c) now (sc_req s).
 
 Definition grp_model_ok (c : grp_case) : bool :=
-  let s := gc_sig c in
-  match grp_gate c (sc_now0 s), grp_gate c (sc_now1 s) with
-  | Some o0, Some o1 => sout_eqb s o0 || sout_eqb s o1
-  | _, _ => false
-  end.
+  forallb (fun rq =>
+    let s := gr_sig rq in
+    match grp_gate (gc_groups c) rq (sc_now0 s), grp_gate (gc_groups c) rq (sc_now1 s) with
+    | Some o0, Some o1 => sout_eqb s o0 || sout_eqb s o1
+    | _, _ => false
+    end) (gc_reqs c).
 
 (* Spec: the (fingerprint, key) pair the client used is configured FOR THE TARGET GROUP; everything else
    (tolerance, strictness) is the target group's own setting *)
@@ -259,17 +264,18 @@ Definition configured_for (g : group) (fp : bytes) (k : N) : bool :=
   existsb (fun kv => bytes_eqb (fst kv) fp && (snd kv =? k)%N) (g_keys g).
 
 Definition grp_spec_ok (c : grp_case) : bool :=
-  let s := gc_sig c in
-  match nth_error (gc_groups c) (gc_target c) with
-  | None => false
-  | Some g =>
-      let q := sc_q s in
-      let q' := mkq (q_decrypts q && configured_for g (gc_fp c) (gc_enckey c)) (q_key q) (q_ts_text q) (q_ts q)
-                    (q_sig q) (q_method q) (q_path q) (q_query q) (q_body q) in
-      sig_spec_ok (mksc (g_strict g) (g_tol g) (sc_now0 s) (sc_now1 s) (sc_decryptors s) (sc_req s) (sc_rsa s)
-                        (sc_b64 s) (sc_mac s) (sc_sha s) (sc_url s) (sc_decbody s) q' (sc_enc s) (sc_skip_spec s)
-                        (sc_status s) (sc_ran s) (sc_hdr s) (sc_panic s))
-  end.
+  forallb (fun rq =>
+    let s := gr_sig rq in
+    match nth_error (gc_groups c) (gr_target rq) with
+    | None => false
+    | Some g =>
+        let q := sc_q s in
+        let q' := mkq (q_decrypts q && configured_for g (gr_fp rq) (gr_enckey rq)) (q_key q) (q_ts_text q) (q_ts q)
+                      (q_sig q) (q_method q) (q_path q) (q_query q) (q_body q) in
+        sig_spec_ok (mksc (g_strict g) (g_tol g) (sc_now0 s) (sc_now1 s) (sc_decryptors s) (sc_req s) (sc_rsa s)
+                          (sc_b64 s) (sc_mac s) (sc_sha s) (sc_url s) (sc_decbody s) q' (sc_enc s) (sc_skip_spec s)
+                          (sc_status s) (sc_ran s) (sc_hdr s) (sc_panic s))
+    end) (gc_reqs c).
 
 (* ------------------------------------------------------------------ RPC through the interceptors *)
 Record istep := mkis {
